@@ -15,7 +15,7 @@
 (*    form, operands untouched, unnamed registers untouched).              *)
 (* The trace is accepted iff TLC consumes every event and bad = {}.        *)
 (***************************************************************************)
-EXTENDS DecContext, Chars, Json, TLC, IOUtils
+EXTENDS DecParse, Json, TLC, IOUtils
 
 DW == 19                                  \* digits per word of the real library (64-bit build)
 DB == Pow10(DW)
@@ -394,6 +394,95 @@ TGobStream ==
      IN StepX(w, {"GobStream"}, IF Ev.out = "ok" /\ Ev.ret.err THEN {<<l, "C17", "rejected">>} ELSE {})
 
 (***************************************************************************)
+(* Text output (C13, C11).  When the step carries "f64" the executor also  *)
+(* logged what strconv / fmt print for the float64 of the same value       *)
+(* (ret.ref): a second implementation of the same layout specification.    *)
+(***************************************************************************)
+RefOK(want) == "ref" \in DOMAIN Ev.ret => Ev.ret.ref = want
+FmtTags(x, f, prec) == {Ev.op \o ":" \o f, Ev.op \o ":" \o x.form, Ev.op \o (IF prec < 0 THEN ":shortest" ELSE ":prec")}
+                       \cup (IF "ref" \in DOMAIN Ev.ret THEN {Ev.op \o ":ref"} ELSE {})
+TText == IsEv("Text") /\ LET x == Pre(Ev.x)  w == Text(x, Ev.fmt, Ev.prec) IN Observe(Ev.ret.s = w /\ RefOK(w), "C13", FmtTags(x, Ev.fmt, Ev.prec))
+TAppend == IsEv("Append") /\ LET x == Pre(Ev.x)  w == Ev.pre \o Text(x, Ev.fmt, Ev.prec) IN Observe(Ev.ret.s = w, "C13", FmtTags(x, Ev.fmt, Ev.prec))
+TString == IsEv("String") /\ LET x == Pre(Ev.x) IN Observe(Ev.ret.s = Text(x, "g", 10), "C13", {})
+TMarshalText == IsEv("MarshalText") /\ LET x == Pre(Ev.x) IN Observe(~Ev.ret.err /\ Ev.ret.s = Text(x, "g", -1), "C11", {})
+TMarshalJSON == IsEv("MarshalJSON") /\ LET x == Pre(Ev.x) IN Observe(~Ev.ret.err /\ Ev.ret.s = "\"" \o Text(x, "g", -1) \o "\"", "C11", {})
+TFormat ==
+  /\ IsEv("Format")
+  /\ LET x == Pre(Ev.x)
+         w == FormatText(x, Ev.verb, [plus |-> Ev.plus, space |-> Ev.space, zero |-> Ev.zero, minus |-> Ev.minus], Ev.haswidth, Ev.width, Ev.hasprec, Ev.fprec)
+     IN Observe(Ev.ret.s = w /\ RefOK(w), "C13", {"Format:" \o Ev.verb, "Format:" \o x.form}
+                  \cup (IF Ev.plus THEN {"Format:+"} ELSE {}) \cup (IF Ev.space THEN {"Format:space"} ELSE {}) \cup (IF Ev.zero THEN {"Format:0"} ELSE {})
+                  \cup (IF Ev.minus THEN {"Format:-"} ELSE {}) \cup (IF Ev.haswidth THEN {"Format:width"} ELSE {}) \cup (IF "ref" \in DOMAIN Ev.ret THEN {"Format:ref"} ELSE {}))
+
+(***************************************************************************)
+(* Text input (C12, C11).                                                  *)
+(***************************************************************************)
+(* must the literal be rejected?  not recognised, decimal exponent outside int32, or a binary exponent that *)
+(* certainly leaves the range; "free" when only one reading of "exponent outside the int32 range" applies   *)
+LitMustFail(lt) == ~lt.ok \/ (~lt.inf /\ LitRangeError(lt))
+                  \/ (~lt.inf /\ lt.ok /\ lt.M # Zero /\ ~IsDecimalLit(lt) /\ Len(LitK2(lt).mag) > 10)
+LitBinSmall(lt) == Len(LitK2(lt).mag) <= 4 \/ (Len(LitK2(lt).mag) = 5 /\ Lt(LitK2(lt).mag, FromInt(20001)))
+LitFree(lt) == lt.ok /\ ~lt.inf /\ lt.M # Zero /\ ~IsDecimalLit(lt) /\ ~LitMustFail(lt) /\ ~LitBinSmall(lt)
+
+ParseStepZ(z, lt, okRet, checkBase) ==
+  IF LitMustFail(lt)
+     THEN \* error: nil result, receiver valid but undefined
+          StepX([Outcome("ok", z, {"value", "acc", "prec", "mode"}, {"C12"}) EXCEPT !.why = "rejected"], {Ev.op \o ":rejected"},
+                IF Ev.out = "ok" /\ okRet THEN {<<l, "C12", "accepted-invalid">>} ELSE {})
+     ELSE IF LitFree(lt)
+     THEN StepX([Outcome("ok", z, {"value", "acc", "prec", "mode"}, {"C12"}) EXCEPT !.why = "free"], {Ev.op \o ":free"}, {})
+     ELSE LET w == OpParse(z, lt)
+              g == Got(Ev.z)
+              bin == ~lt.inf /\ lt.M # Zero /\ ~IsDecimalLit(lt)
+              \* a binary literal whose true value leaves the exponent range must be rejected; otherwise exact / within one ulp
+              binr == RoundTo(lt.neg, BinLitN(lt), BinLitD(lt), LitK10(lt), IF g.prec >= 1 THEN g.prec ELSE 1, g.mode)
+              extra == IF Ev.out # "ok" THEN {}
+                       ELSE IF bin /\ binr.form # "finite"
+                            THEN (IF okRet THEN {<<l, "C12", "accepted-out-of-range">>} ELSE {})
+                       ELSE (IF okRet THEN {} ELSE {<<l, "C12", "rejected-valid">>})
+                            \cup (IF okRet /\ checkBase /\ Ev.ret.b # lt.base THEN {<<l, "C12", "base">>} ELSE {})
+                            \cup (IF okRet /\ bin /\ Canonical(Ev.post[Ev.z]) /\ g.prec >= 1 /\ ~ParseBinOK(lt, g) THEN {<<l, "C12", "value">>} ELSE {})
+                            \cup (IF okRet /\ lt.inf /\ g.prec \notin {z.prec, IF z.prec = 0 THEN DefaultPrec ELSE z.prec} THEN {<<l, "C09", "prec">>} ELSE {})
+          IN IF bin /\ binr.form # "finite"
+             THEN StepX([Outcome("ok", z, {"value", "acc", "prec", "mode"}, {"C12"}) EXCEPT !.why = "rejected"], {Ev.op \o ":bin-out-of-range"}, extra)
+             ELSE StepX(IF okRet THEN w ELSE [w EXCEPT !.free = {"value", "acc", "prec", "mode"}],
+                        {Ev.op \o ":accepted", Ev.op \o ":base" \o ToString(lt.base), Ev.op \o (IF bin THEN ":binary" ELSE IF lt.inf THEN ":inf" ELSE ":decimal")}
+                          \cup RoundTags(w), extra)
+
+ParseStep(lt, okRet, checkBase) == ParseStepZ(Pre(Ev.z), lt, okRet, checkBase)
+ParseStepOn(z0, lt, okRet) == ParseStepZ(z0, lt, okRet, TRUE)
+
+(* math/big's Float.Parse as a second implementation of the grammar: same accepted set, same detected base *)
+BigOK(lt) == "bigok" \in DOMAIN Ev.ret => (Ev.ret.bigok = lt.ok /\ (lt.ok => Ev.ret.bigb = lt.base))
+BigBad(lt) == IF BigOK(lt) THEN {} ELSE {<<l, "C12", "math/big-disagrees-with-grammar">>}
+
+TParse ==
+  /\ IsEv("Parse")
+  /\ LET lit == ParseLit(Chars(Ev.s), Ev.base)
+     IN /\ ParseStep(lit, Ev.ret.ok /\ ~Ev.ret.nilres, TRUE)
+        /\ BigOK(lit)            \* (a disagreement here is a specification error: the trace is not consumed, exit 2)
+TSetString == IsEv("SetString") /\ ParseStep(ParseLit(Chars(Ev.s), 0), Ev.ret.ok /\ ~Ev.ret.nilres, FALSE)
+TUnmarshalText == IsEv("UnmarshalText") /\ ParseStep(ParseLit(Chars(Ev.s), 0), Ev.ret.ok, FALSE)
+TUnmarshalJSON == IsEv("UnmarshalJSON") /\ ParseStep(ParseLit(Chars(Ev.s), 0), Ev.ret.ok, FALSE)
+TParseDecimal ==
+  /\ IsEv("ParseDecimal")
+  /\ LET lit == ParseLit(Chars(Ev.s), Ev.base)
+         \* ParseDecimal works on a new Decimal with the given precision and mode
+         z0 == MkDec("zero", FALSE, Zero, IZero, MinI(Ev.p, MaxPrec), Ev.m, Exact)
+     IN ParseStepOn(z0, lit, Ev.ret.ok /\ ~Ev.ret.nilres)
+TScan == IsEv("Scan") /\ ParseStep(ScanLit(Chars(Ev.s)), Ev.ret.ok, FALSE)
+(* C11: x -> text -> parse into z (precision >= MinPrec(x)) gives back exactly x's value and sign; *)
+(* with precision -1 the text carries exactly MinPrec significant digits                           *)
+TTextParse ==
+  /\ IsEv("TextParse")
+  /\ LET x == Pre(Ev.x)
+         want == CASE Ev.via = "json" -> "\"" \o Text(x, "g", -1) \o "\"" [] Ev.via = "text" -> Text(x, "g", -1) [] OTHER -> Text(x, Ev.fmt, -1)
+         g == Got(Ev.z)
+         extra == (IF Ev.ret.s = want THEN {} ELSE {<<l, "C11", "text">>})
+                  \cup (IF Ev.out = "ok" /\ Ev.ret.ok /\ Canonical(Ev.post[Ev.z]) /\ SameValue(g, x) THEN {} ELSE {<<l, "C11", "roundtrip">>})
+     IN StepX(Outcome("ok", x, {"value", "acc", "prec", "mode"}, {"C11"}), {"TextParse:" \o Ev.via \o ":" \o Ev.fmt, "TextParse:" \o x.form}, extra)
+
+(***************************************************************************)
 (* package context (C19)                                                   *)
 (***************************************************************************)
 Ctx == ctxs[Ev.c]
@@ -533,7 +622,9 @@ CoreNext == TReset \/ TPanic \/ TLoad \/ TAdd \/ TSub \/ TMul \/ TQuo \/ TFMA \/
             \/ TSetInf \/ TNew \/ TSetInt64 \/ TSetUint64 \/ TNewDecimal \/ TSetInt \/ TSetRat \/ TInt64 \/ TUint64 \/ TInt \/ TRat \/ TPreds14 \/ TSetFloat64 \/ TSetFloat \/ TFloat64 \/ TFloat32 \/ TFloat \/ TGobEncode \/ TGobDecode \/ TGobMutate \/ TGobRoundTrip \/ TGobStream \/ TSetMantExp \/ TMantExp \/ TSetBitsExp \/ TSetBitsExpSelf \/ TBitsExp \/ TCmp \/ TPreds
 
 TraceInit == l = 1 /\ regs = <<>> /\ dgs = <<>> /\ bad = {} /\ cov = <<>> /\ vres = <<>> /\ ctxs = <<>>
-TraceNext == CoreNext \/ CtxNext
+TextNext == TText \/ TAppend \/ TString \/ TMarshalText \/ TMarshalJSON \/ TFormat \/ TParse \/ TSetString \/ TUnmarshalText
+            \/ TUnmarshalJSON \/ TParseDecimal \/ TScan \/ TTextParse
+TraceNext == CoreNext \/ CtxNext \/ TextNext
 TraceSpec == TraceInit /\ [][TraceNext]_vars
 
 (* the verdict, printed once when the whole trace has been consumed *)
